@@ -225,3 +225,298 @@ class Sched:
             self.go[t].set()
         for th in self.threads:
             th.join(1.0)
+
+
+# =============================================================================================
+# Layered sessions: the real clients ABOVE the caches (Pipeline objects re-used across runs,
+# pipelinerunner.run, the pype step, long-lived Step objects) driven through sequences of
+# run / source edit / clear / no_cache operations. Mirror of lean/PypyrModel/CacheTS.lean `Stack`.
+# =============================================================================================
+
+import os
+import shutil
+import signal
+import sys
+import tempfile
+from pathlib import Path
+
+STACK_CASE_TIMEOUT_S = 20
+LOADER_NAMES = {0: 'pypyr.loaders.file', 1: 'vc13loader_a', 2: 'vc13loader_b'}
+_LIB = {}
+
+
+class CaseTimeout(BaseException):
+    """A single operation of a layered session did not return in time."""
+
+
+def _lib_dir():
+    """Harness modules the pipelines under test use: a recording step, two custom loaders reading
+    their answers from vc13world.TABLE. Created once per process."""
+    if 'dir' in _LIB and Path(_LIB['dir']).is_dir():
+        return _LIB['dir']
+    d = Path(tempfile.mkdtemp(prefix='c13lib')).resolve()
+    (d / 'vc13world.py').write_text('TABLE = {}\nCALLS = []\nTRAIL = []\n')
+    (d / 'vc13step.py').write_text(
+        "import vc13world\n\ndef run_step(context):\n    vc13world.TRAIL.append(context['v'])\n")
+    for nm in ('vc13loader_a', 'vc13loader_b'):
+        (d / f'{nm}.py').write_text(
+            "import vc13world\n\n"
+            "def get_pipeline_definition(pipeline_name, parent):\n"
+            f"    key = ({nm!r}, str(parent) if parent else None, pipeline_name)\n"
+            "    vc13world.CALLS.append(key)\n"
+            "    v = vc13world.TABLE.get(key)\n"
+            "    if v is None:\n"
+            f"        raise LookupError('{nm}: no pipeline ' + repr(key))\n"
+            "    return {'steps': [{'name': 'vc13step', 'in': {'v': v}}]}\n")
+    _LIB['dir'] = str(d)
+    import atexit
+    atexit.register(shutil.rmtree, str(d), True)
+    return _LIB['dir']
+
+
+class StackRig:
+    """One layered session against the real pypyr. Files live under a fresh scratch root; abstract
+    paths '/T/…' in the case are mapped onto it."""
+
+    def __init__(self, case):
+        import pypyr.cache.admin
+        import pypyr.cache.loadercache as lcm
+        import pypyr.cache.stepcache as scm
+        import pypyr.loaders.file as fl
+        import pypyr.moduleloader as ml
+        from pypyr.config import config
+        self.case = case
+        self.root = Path(tempfile.mkdtemp(prefix='c13stack')).resolve()
+        self.lib = _lib_dir()
+        self.mods = (lcm, scm, fl, ml, config, pypyr.cache.admin)
+        self.saved_path = list(sys.path)
+        self.saved_known = set(ml._known_dirs)
+        self.saved_missing = set(getattr(ml, '_missing_dirs', ()))
+        self.saved_nc = config.no_cache
+        if self.lib not in sys.path:
+            sys.path.append(self.lib)
+        import vc13world
+        self.world = vc13world
+        vc13world.TABLE.clear()
+        vc13world.CALLS.clear()
+        vc13world.TRAIL.clear()
+        self.counts = {'loader': 0, 'def': 0, 'file': 0, 'step': 0}
+        self.undo = []
+        self._patch(lcm, 'load_the_loader', self._counting(lcm.load_the_loader, 'loader'))
+        self._patch(fl, 'get_pipeline_definition', self._counting(fl.get_pipeline_definition, 'def'))
+        self._patch(fl, 'load_pipeline_from_file', self._counting(fl.load_pipeline_from_file, 'file'))
+        old_lts = scm.load_the_step
+
+        def load_the_step(name):
+            if name == 'vc13step':
+                self.counts['step'] += 1
+            return old_lts(name)
+        self._patch(scm, 'load_the_step', load_the_step)
+        self.clients = {}
+        import logging
+        self.log = logging.getLogger('pypyr')
+        self.saved_log = (self.log.propagate, list(self.log.handlers))
+        self.log.propagate = False
+        if not self.log.handlers:
+            self.log.addHandler(logging.NullHandler())
+        config.no_cache = False
+        pypyr.cache.admin.clear_all()
+        config.no_cache = bool(case.get('noCache'))
+
+    def _counting(self, fn, what):
+        def wrapper(*a, **k):
+            self.counts[what] += 1
+            return fn(*a, **k)
+        return wrapper
+
+    def _patch(self, mod, name, val):
+        old = getattr(mod, name)
+        setattr(mod, name, val)
+        self.undo.append((mod, name, old))
+
+    def conc(self, s):
+        if isinstance(s, str) and (s == '/T' or s.startswith('/T/')):
+            return str(self.root) + s[2:]
+        return s
+
+    def close(self):
+        lcm, scm, fl, ml, config, admin = self.mods
+        for mod, name, old in reversed(self.undo):
+            setattr(mod, name, old)
+        self.log.propagate = self.saved_log[0]
+        self.log.handlers[:] = self.saved_log[1]
+        config.no_cache = False
+        try:
+            admin.clear_all()
+        finally:
+            config.no_cache = self.saved_nc
+            sys.path[:] = self.saved_path
+            ml._known_dirs.clear()
+            ml._known_dirs.update(self.saved_known)
+            if hasattr(ml, '_missing_dirs'):
+                ml._missing_dirs.clear()
+                ml._missing_dirs.update(self.saved_missing)
+            shutil.rmtree(self.root, ignore_errors=True)
+
+    # ---- the world ------------------------------------------------------------------------
+    def apply_world(self, world):
+        """world = {'files': {abstract path: version}, 'custom': [[l, parent|None, name, version|None]…]}"""
+        want = {self.conc(p): v for p, v in world['files'].items()}
+        for dp, _, fn in os.walk(self.root):
+            for f in fn:
+                full = os.path.join(dp, f)
+                if full.endswith('.yaml') and full not in want:
+                    os.remove(full)
+        for full, v in want.items():
+            os.makedirs(os.path.dirname(full), exist_ok=True)
+            Path(full).write_text(f"steps:\n  - name: vc13step\n    in:\n      v: {v}\n")
+        for d in world.get('dirs', []):
+            os.makedirs(self.conc(d), exist_ok=True)
+        self.world.TABLE.clear()
+        for l, parent, name, v in world['custom']:
+            if v is not None:
+                self.world.TABLE[(LOADER_NAMES[l], str(self.conc(parent)) if parent else None, self.conc(name))] = v
+
+    # ---- one run through a real client ----------------------------------------------------
+    def _parent(self, rq):
+        p = self.conc(rq['parent'])
+        if p is not None and rq.get('parent_form') == 'path':
+            p = Path(p)
+        return p
+
+    def run(self, op):
+        from pypyr.context import Context
+        from pypyr.pipeline import Pipeline
+        rq = self.case['rqs'][op['rq']]
+        l = op['l']
+        loader = None if (l == 0 and op.get('default_loader')) else LOADER_NAMES[l]
+        name = self.conc(rq['name'])
+        parent = self._parent(rq)
+        via = op['via']
+        before = dict(self.counts)
+        self.world.TRAIL.clear()
+        err = None
+        if via in ('obj', 'obj.run'):
+            # a Pipeline object is bound to one (loader, name): one object per (client id, loader, name)
+            ck = (op['c'], l, name)
+        elif via not in ('new', 'runner', 'pype', 'step'):
+            raise common.Infra(f'C13 stack: unknown via {via}')
+        try:
+            if via in ('obj', 'obj.run'):
+                pipe = self.clients.get(ck)
+                if pipe is None:
+                    pipe = self.clients[ck] = Pipeline(name, loader=loader)
+                if via == 'obj.run':
+                    pipe.run(Context())
+                else:
+                    pipe.load_and_run_pipeline(Context(), parent)
+            elif via == 'new':
+                Pipeline(name, loader=loader).load_and_run_pipeline(Context(), parent)
+            elif via == 'runner':
+                import pypyr.pipelinerunner
+                pypyr.pipelinerunner.run(name, loader=loader)
+            elif via in ('pype', 'step'):
+                from pypyr.pipedef import PipelineDefinition, PipelineInfo
+                caller = Pipeline('vc13caller')
+                caller.pipeline_definition = PipelineDefinition(
+                    pipeline={}, info=PipelineInfo(pipeline_name='vc13caller', loader=None, parent=None))
+                ctx = Context({'pype': {'name': name, 'loader': loader, 'parent': parent}})
+                with ctx.pipeline_scope(caller):
+                    if via == 'pype':
+                        import pypyr.steps.pype
+                        pypyr.steps.pype.run_step(ctx)
+                    else:
+                        from pypyr.dsl import Step
+                        ck = ('step', op['c'])
+                        st = self.clients.get(ck)
+                        if st is None:
+                            st = self.clients[ck] = Step({'name': 'pypyr.steps.pype'})
+                        st.run_step(ctx)
+        except (CaseTimeout, KeyboardInterrupt, common.Infra):
+            raise
+        except BaseException as e:  # noqa: BLE001 - classified below
+            err = type(e).__name__
+        trail = list(self.world.TRAIL)
+        d = {k: self.counts[k] - before[k] for k in self.counts}
+        if err in ('PipelineNotFoundError', 'LookupError') and not trail:
+            ran = None
+        elif err is None and len(trail) == 1:
+            ran = trail[0]
+        else:
+            ran = {'unexpected': err, 'trail': trail}
+        return {'ran': ran, 'loaderMade': d['loader'] > 0, 'defMade': self._defs(d, l) > 0, 'fileRead': d['file'] > 0,
+                'stepMade': d['step'] > 0, 'counts': d}
+
+    def _defs(self, d, l):
+        if l == 0:
+            return d['def']
+        n = len(self.world.CALLS)
+        self.world.CALLS.clear()
+        return n
+
+    # ---- the other operations -------------------------------------------------------------
+    def do(self, op):
+        lcm, scm, fl, ml, config, admin = self.mods
+        from pypyr.cache.filecache import file_cache
+        kind = op['op']
+        if kind == 'run':
+            self.world.CALLS.clear()
+            return self.run(op)
+        if kind == 'world':
+            self.apply_world(op['world'])
+        elif kind == 'clearAll':
+            admin.clear_all()
+        elif kind == 'clearLoaders':
+            lcm.loader_cache.clear()
+        elif kind == 'clearPipes':
+            if op['l'] is None:
+                lcm.loader_cache.clear_pipes()
+            elif op.get('how') == 'Loader.clear':
+                ld = lcm.loader_cache._cache.get(LOADER_NAMES[op['l']])
+                if ld is not None:
+                    ld.clear()
+            else:
+                lcm.loader_cache.clear_pipes(LOADER_NAMES[op['l']])
+        elif kind == 'clearFiles':
+            file_cache.clear()
+        elif kind == 'clearSteps':
+            scm.step_cache.clear()
+        elif kind == 'noCache':
+            config.no_cache = bool(op['b'])
+        else:
+            raise common.Infra(f'C13 stack: unknown op {kind}')
+        return None
+
+
+def run_stack_impl(case):
+    """Run a layered session on the real pypyr. Returns the list of run observations; a hang becomes
+    the observation {'timeout': i}."""
+    def on_alarm(signum, frame):
+        raise CaseTimeout()
+    use_alarm = threading.current_thread() is threading.main_thread()
+    old = signal.signal(signal.SIGALRM, on_alarm) if use_alarm else None
+    rig = None
+    runs = []
+    try:
+        rig = StackRig(case)
+        rig.apply_world(case['world'])
+        for i, op in enumerate(case['ops']):
+            if use_alarm:
+                signal.setitimer(signal.ITIMER_REAL, STACK_CASE_TIMEOUT_S)
+            try:
+                r = rig.do(op)
+            except CaseTimeout:
+                runs.append({'ran': {'unexpected': 'timeout', 'trail': []}, 'timeout': i})
+                break
+            finally:
+                if use_alarm:
+                    signal.setitimer(signal.ITIMER_REAL, 0)
+            if r is not None:
+                runs.append(r)
+        return runs
+    finally:
+        if use_alarm:
+            signal.setitimer(signal.ITIMER_REAL, 0)
+            signal.signal(signal.SIGALRM, old)
+        if rig is not None:
+            rig.close()
